@@ -64,6 +64,16 @@ theorem escape_order_matters : decode (applyChain chain.reverse [60]) ≠ [60] :
     outside the property, stated so the model's domain is explicit). -/
 theorem markup_nodes_bypass (s : List Nat) : textDefault true s = s := rfl
 
+/-- The hook has no memory: in every sequence of calls on one renderer (any mix of plain and `isMarkup`
+    strings, equal strings included) each result is what that call gives on its own, whatever came before. -/
+theorem hook_history_independent (before after : List (Bool × List Nat)) (c : Bool × List Nat) :
+    (textDefaultSeq (before ++ c :: after))[before.length]? = some (textDefault c.1 c.2) := by
+  simp [textDefaultSeq]
+
+/-- in particular a plain string is escaped even right after the same characters went through as declared markup -/
+example : textDefaultSeq [(true, [60, 104, 114, 62]), (false, [60, 104, 114, 62])]
+    = [[60, 104, 114, 62], [38, 108, 116, 59, 104, 114, 38, 103, 116, 59]] := by decide
+
 /-- With escape-high-chars every file is 7-bit — for every file content. -/
 theorem escape_high_ascii (f : List Nat) : Ascii (processFileContent true f) := by
   simp only [processFileContent, imagePass, ↓reduceIte]
@@ -224,6 +234,95 @@ theorem render_displays_leaves (T : Templates) (pre post : Nat → List Nat)
       have := strip_renderChildren T pre post hT hpre hpost cs h []
       simpa [renderSelf, RNode.leaves, stripTags, stripTagsAux] using this
   exact ⟨key, by rw [textOf, key, escape_roundtrip]⟩
+
+/-! #### trees that also contain declared markup (`isMarkup` leaves of the packages html / embed) -/
+
+/-- a piece of declared markup that is complete: it does not end inside a tag -/
+def ClosedMarkup (s : List Nat) : Prop := ∀ b, stripTags (s ++ b) = stripTags s ++ stripTags b
+
+mutual
+/-- the character data a reader must get from a node: text leaves escaped, markup leaves' own character data -/
+def shown : RNode → List Nat
+  | .text m s => if m then stripTags s else textDefault false s
+  | .uni m s => if m then stripTags s else textDefault false s
+  | .elem _ cs => shownL cs
+def shownL : List RNode → List Nat
+  | [] => []
+  | c :: cs => shown c ++ shownL cs
+end
+
+mutual
+/-- every `isMarkup` leaf is complete markup -/
+def markupClosed : RNode → Prop
+  | .text m s => m = true → ClosedMarkup s
+  | .uni m s => m = true → ClosedMarkup s
+  | .elem _ cs => markupClosedL cs
+def markupClosedL : List RNode → Prop
+  | [] => True
+  | c :: cs => markupClosed c ∧ markupClosedL cs
+end
+
+/-- the loop of `__str__` is a homomorphism: what a child contributes does not depend on its siblings
+    (nothing is carried from one child to the next) -/
+theorem children_output_independent (T : Templates) (a b : List RNode) :
+    renderChildren T (a ++ b) = renderChildren T a ++ renderChildren T b := by
+  induction a with
+  | nil => simp [renderChildren]
+  | cons c cs ih => simp [renderChildren, ih]
+
+mutual
+theorem shown_renderChild (T : Templates) (pre post : Nat → List Nat)
+    (hT : ∀ k x, T k x = pre k ++ x ++ post k) (hpre : ∀ k, TagOnly (pre k)) (hpost : ∀ k, TagOnly (post k)) :
+    (n : RNode) → markupClosed n → ∀ b, stripTags (renderChild T n ++ b) = shown n ++ stripTags b
+  | .text m s, h, b => by
+    cases m with
+    | false =>
+      simp only [renderChild, shown, stripTags]
+      exact stripTagsAux_noLt _ _ (escape_no_markup s).1
+    | true =>
+      simp only [markupClosed] at h
+      simpa [renderChild, shown, textDefault] using h trivial b
+  | .uni m s, h, b => by
+    cases m with
+    | false =>
+      simp only [renderChild, shown, stripTags]
+      exact stripTagsAux_noLt _ _ (escape_no_markup s).1
+    | true =>
+      simp only [markupClosed] at h
+      simpa [renderChild, shown, textDefault] using h trivial b
+  | .elem k cs, h, b => by
+    simp only [markupClosed] at h
+    simp only [renderChild, shown, hT, List.append_assoc]
+    rw [hpre k, shown_renderChildren T pre post hT hpre hpost cs h, hpost k]
+theorem shown_renderChildren (T : Templates) (pre post : Nat → List Nat)
+    (hT : ∀ k x, T k x = pre k ++ x ++ post k) (hpre : ∀ k, TagOnly (pre k)) (hpost : ∀ k, TagOnly (post k)) :
+    (ns : List RNode) → markupClosedL ns → ∀ b, stripTags (renderChildren T ns ++ b) = shownL ns ++ stripTags b
+  | [], _, b => by simp [renderChildren, shownL]
+  | c :: cs, h, b => by
+    simp only [markupClosedL] at h
+    simp only [renderChildren, shownL, List.append_assoc]
+    rw [shown_renderChild T pre post hT hpre hpost c h.1, shown_renderChildren T pre post hT hpre hpost cs h.2]
+end
+
+/-- Trees that mix text leaves with declared (complete) markup, in any order and with equal strings on both
+    sides: the character data of the output is the escaped text leaves and the markup's own character data, in
+    document order — a text leaf is escaped whatever markup was rendered before it. -/
+theorem render_with_markup_leaves (T : Templates) (pre post : Nat → List Nat)
+    (hT : ∀ k x, T k x = pre k ++ x ++ post k) (hpre : ∀ k, TagOnly (pre k)) (hpost : ∀ k, TagOnly (post k))
+    (cs : List RNode) (h : markupClosedL cs) (k : Nat) :
+    stripTags (renderSelf T (.elem k cs)) = shownL cs := by
+  have := shown_renderChildren T pre post hT hpre hpost cs h []
+  simpa [renderSelf, stripTags, stripTagsAux] using this
+
+/-- non-vacuity: raw `<hr>` followed by the text `<hr>` -/
+example : stripTags (renderSelf (fun _ x => str "<p>" ++ x ++ str "</p>")
+    (.elem 0 [.uni true [60, 104, 114, 62], .elem 0 [.text false [60, 104, 114, 62]]]))
+    = [38, 108, 116, 59, 104, 114, 38, 103, 116, 59] := by
+  rw [render_with_markup_leaves _ (fun _ => str "<p>") (fun _ => str "</p>") (fun _ _ => rfl)]
+  · decide
+  · intro _ b; simp [str, stripTags, stripTagsAux]
+  · intro _ b; simp [str, stripTags, stripTagsAux]
+  · simp [markupClosedL, markupClosed, ClosedMarkup, stripTags, stripTagsAux]
 
 /-- The clause as the property states it, for a given family of templates `T`: every tree without declared
     markup displays exactly its text leaves.  For the real Jinja2/TAL templates this is NOT a theorem here
